@@ -129,7 +129,8 @@ Inductive res := RNone | RFound (o : nat) (tr : list nat) | RPost | ROof.
 (* visited key: (id(obj), id(node), len(lookup_list), first_element) *)
 Record st := {
   vis : list (nat * list nat * nat * bool);
-  pds : list (nat * nat * nat);        (* prevent_doubles sets: (invocation, id(obj), len) *)
+  pds : list (nat * list nat * nat * nat);   (* prevent_doubles sets: (invocation, its `*` node, id(obj), len);
+                                           the node is determined by the invocation (kept for the proofs) *)
   nxt : nat;                           (* next prevent_doubles invocation number          *)
   hit : bool                           (* instrumentation: some item was pruned           *)
 }.
@@ -147,9 +148,9 @@ Definition key_eqb (a b : nat * list nat * nat * bool) : bool :=
   let '(o1, p1, l1, f1) := a in let '(o2, p2, l2, f2) := b in
   Nat.eqb o1 o2 && pos_eqb p1 p2 && Nat.eqb l1 l2 && Bool.eqb f1 f2.
 
-Definition pd_eqb (a b : nat * nat * nat) : bool :=
-  let '(i1, o1, l1) := a in let '(i2, o2, l2) := b in
-  Nat.eqb i1 i2 && Nat.eqb o1 o2 && Nat.eqb l1 l2.
+Definition pd_eqb (a b : nat * list nat * nat * nat) : bool :=
+  let '(i1, p1, o1, l1) := a in let '(i2, p2, o2, l2) := b in
+  Nat.eqb i1 i2 && pos_eqb p1 p2 && Nat.eqb o1 o2 && Nat.eqb l1 l2.
 
 Notation kont := (cfg -> st -> res * st) (only parsing).
 
@@ -171,9 +172,9 @@ Fixpoint iter_outs (l : list cfg) (k : kont) (s : st) : res * st :=
   end.
 
 (* the outer loop of RRELZeroOrMore.get_next_matches: drop (obj, len) doubles *)
-Definition pd_filter (id : nat) (k : kont) : kont :=
+Definition pd_filter (id : nat) (pos : list nat) (k : kont) : kont :=
   fun c s =>
-    let e := (id, c_obj c, List.length (c_names c)) in
+    let e := (id, pos, c_obj c, List.length (c_names c)) in
     if existsb (pd_eqb e) (pds s)
     then (RNone, {| vis := vis s; pds := pds s; nxt := nxt s; hit := true |})
     else k c {| vis := vis s; pds := e :: pds s; nxt := nxt s; hit := hit s |}.
@@ -239,7 +240,7 @@ Fixpoint ev_elem (F : nat) (m : model) (kf : bool) (pos : list nat) (e : elem)
       let id := nxt s in
       let s0 := {| vis := vis s; pds := pds s; nxt := S id; hit := hit s |} in
       gfz (fun f c1 k1 s1 => ev_seq F m kf (0 :: pos) sq f c1 k1 s1) (sl_seq sq) (sr_seq sq)
-          F m kf pos (pd_filter id k) F first c s0
+          F m kf pos (pd_filter id pos k) F first c s0
   end
 with ev_path (F : nat) (m : model) (kf : bool) (q : list nat) (i j : nat) (p : path)
          (first : bool) (c : cfg) (k : kont) (s : st) {struct p} : res * st :=
@@ -485,18 +486,19 @@ Section Cert.
   Definition hnext (pos : list nat) : nat -> list (list N) -> bool :=
     fun o ns => memk (o, pos, List.length ns, false).
 
+  Definition base_key_ok (e : elem) (H : nat -> list (list N) -> bool) (k : nat * list nat * nat * bool) : bool :=
+    let '(o, _, l, f) := k in
+    match e with
+    | EParent T => match apply_parent F m T o with
+                   | Some (Some p) => H p (sufl l) | Some None => true | None => false end
+    | ENav n cs fx => match apply_nav F m n cs fx f (mk o (sufl l) []) with
+                      | SOuts outs => forallb (fun c' => H (c_obj c') (c_names c')) outs
+                      | _ => false end
+    | EDots n => match apply_dots m n o with Some p => H p (sufl l) | None => true end
+    | _ => true
+    end.
   Definition base_rule (pos : list nat) (e : elem) (H : nat -> list (list N) -> bool) : bool :=
-    forallb (fun k =>
-      let '(o, _, l, f) := k in
-      match e with
-      | EParent T => match apply_parent F m T o with
-                     | Some (Some p) => H p (sufl l) | Some None => true | None => false end
-      | ENav n cs fx => match apply_nav F m n cs fx f (mk o (sufl l) []) with
-                        | SOuts outs => forallb (fun c' => H (c_obj c') (c_names c')) outs
-                        | _ => false end
-      | EDots n => match apply_dots m n o with Some p => H p (sufl l) | None => true end
-      | _ => true
-      end) (keys_at pos).
+    forallb (base_key_ok e H) (keys_at pos).
 
   Fixpoint firsts_in (q : list nat) (i : nat) (sq : seq) (o l : nat) (f : bool) : bool :=
     match sq with
@@ -504,19 +506,23 @@ Section Cert.
     | SCons _ sq' => memk (o, 0 :: i :: q, l, f) && firsts_in q (S i) sq' o l f
     end.
 
-  Definition seq_rule (q : list nat) (sq : seq) : bool :=
-    forallb (fun k => let '(o, _, l, f) := k in firsts_in q 0 sq o l f) (keys_at q).
+  Definition seq_key_ok (q : list nat) (sq : seq) (k : nat * list nat * nat * bool) : bool :=
+    let '(o, _, l, f) := k in firsts_in q 0 sq o l f.
+  Definition seq_rule (q : list nat) (sq : seq) : bool := forallb (seq_key_ok q sq) (keys_at q).
 
-  Definition br_rule (pos : list nat) : bool :=
-    forallb (fun k => let '(o, _, l, f) := k in memk (o, 0 :: pos, l, f)) (keys_at pos).
+  Definition br_key_ok (pos : list nat) (k : nat * list nat * nat * bool) : bool :=
+    let '(o, _, l, f) := k in memk (o, 0 :: pos, l, f).
+  Definition br_rule (pos : list nat) : bool := forallb (br_key_ok pos) (keys_at pos).
 
+  Definition star_key_ok (pos : list nat) (sl sr : bool) (H : nat -> list (list N) -> bool)
+             (k : nat * list nat * nat * bool) : bool :=
+    let '(o, _, l, f) := k in
+    memk (o, 0 :: pos, l, f) &&
+    (if f then implb sl (H o (sufl l)) &&
+               implb sr (match root_of F m o with Some rt => H rt (sufl l) | None => false end)
+     else H o (sufl l)).
   Definition star_rule (pos : list nat) (sl sr : bool) (H : nat -> list (list N) -> bool) : bool :=
-    forallb (fun k =>
-      let '(o, _, l, f) := k in
-      memk (o, 0 :: pos, l, f) &&
-      (if f then implb sl (H o (sufl l)) &&
-                 implb sr (match root_of F m o with Some rt => H rt (sufl l) | None => false end)
-       else H o (sufl l))) (keys_at pos).
+    forallb (star_key_ok pos sl sr H) (keys_at pos).
 
   Fixpoint ck_elem (pos : list nat) (e : elem) (H : nat -> list (list N) -> bool) {struct e} : bool :=
     match e with
